@@ -284,12 +284,7 @@ fn build_case(p: u32, alt_listener: bool, concurrent: bool, split_cookies: bool,
                 total < 9000
             });
             let mut trailers: Vec<Hdr> = if body { c13::resolve(trailers, cfg, 0, true).into_iter().map(|(n, v)| (n, ascii_trimmed(&v))).filter(|(_, v)| v.len() < 600).collect() } else { vec![] };
-            if client_h2 {
-                // known finding (KNOWN[3])
-                let before = trailers.len();
-                trailers.retain(|(n, _)| !n.eq_ignore_ascii_case(cfg.corr));
-                excluded += (before - trailers.len()) as u32;
-            }
+            // (repaired, d22f8dc) an HTTP/2 request trailer named like the correlation header is generated freely
             // known findings (KNOWN[5], KNOWN[6])
             let mut body_len = body_len;
             if body && !trailers.is_empty() && size_of(&headers) + size_of(&trailers) + body_len as usize + 200 > H2_TRAILER_BUDGET {
@@ -299,12 +294,9 @@ fn build_case(p: u32, alt_listener: bool, concurrent: bool, split_cookies: bool,
             // an HTTP/1.1 message carries trailers only with the chunked coding
             let declare_length = if !client_h2 && !trailers.is_empty() { false } else { declare_length };
             // known finding (KNOWN[1]): content-length + trailers toward an HTTP/1.1 backend
-            let declare_length = if path == 1 && !trailers.is_empty() && declare_length {
-                excluded += 1;
-                false
-            } else {
-                declare_length
-            };
+            // (repaired, 9da7cbe) content-length + trailers toward an HTTP/1.1 backend is generated freely: the
+            // trailers cannot be delivered there and must simply not appear
+            let declare_length = declare_length;
             let status = STATUSES[pick_idx(st, STATUSES.len())];
             let bodiless = matches!(status, 204 | 304);
             let mut rh: Vec<Hdr> = c13::resolve(rh, cfg, 0, false).into_iter().map(|(n, v)| (n, ascii_trimmed(&v))).collect();
@@ -318,10 +310,7 @@ fn build_case(p: u32, alt_listener: bool, concurrent: bool, split_cookies: bool,
                 rtotal < 9000
             });
             let mut rtrailers: Vec<Hdr> = if path == 2 && !bodiless { c13::resolve(rtrailers, cfg, 0, false).into_iter().map(|(n, v)| (n, ascii_trimmed(&v))).filter(|(_, v)| v.len() < 600).collect() } else { vec![] };
-            // known finding (KNOWN[2])
-            let before = rtrailers.len();
-            rtrailers.retain(|(n, _)| !ELIDED_TRAILER_NAMES.contains(&n.to_ascii_lowercase().as_str()));
-            excluded += (before - rtrailers.len()) as u32;
+            // (repaired, 558e9c7) response trailers may carry any name
             // known finding (KNOWN[4])
             let rdeclare = if backend_h2 && rdeclare && !rtrailers.is_empty() && (rlen == 0 || bodiless) {
                 excluded += 1;
@@ -353,10 +342,7 @@ fn build_case(p: u32, alt_listener: bool, concurrent: bool, split_cookies: bool,
             }
         })
         .collect();
-    // known finding (KNOWN[0]): no keep-alive on path A
-    if path == 0 && reqs.len() > 1 {
-        excluded += 1;
-    }
+    // (repaired, 9dcd52e) path A keeps its connection alive across requests
     // a refused stream may take the connection with it: such scenarios go one request at a time
     Case { path, alt_listener, concurrent: client_h2 && concurrent && !any_forbidden && reqs.len() > 1, split_cookies: client_h2 && split_cookies, reqs, strict: false, excluded }
 }
@@ -654,8 +640,7 @@ fn run_h1_client(pl: &PathLab, case: &Case, host: &str, base: usize, peers: &mut
             RawOut::Timeout => Got::Timeout(format!("wrote: {wrote:?}")),
             other => Got::Closed(format!("{} (wrote: {wrote:?})", hdrlab::describe(&other))),
         };
-        let close = !case.strict
-            || match &got {
+        let close = match &got {
             Got::Response(m, _) => !m.clean || m.status() == Some(400) || c13::has_token(&sent.values("connection"), b"close") || c13::has_token(&m.values("connection"), b"close") || m.values("x-lab-resp").is_empty(),
             _ => true,
         };
@@ -1068,13 +1053,14 @@ fn scenario_inner(pl: &mut PathLab, case: &Case) -> CheckResult {
 
 // ------------------------------------------------------------------ runner
 
-const RULE: &str = "one scenario = 1..3 requests on one client connection (HTTP/1.1 keep-alive; HTTP/2 streams one after the other or all opened before any response is read) over one of three conversions through a live worker: (A) HTTP/1.1 client on a plain listener -> h2c backend, (B) HTTP/2 (TLS, ALPN h2) client -> HTTP/1.1 backend, (C) HTTP/2 client -> h2c backend; two listener pairs (defaults; elide+send X-Real-IP, sozu_id_header X-Edge-Trace, sticky_name LABSTICK). Request: GET/POST/PUT/DELETE/OPTIONS, origin-form targets with query strings, 0..10 fields + up to 2 duplicates from end-to-end names (X-A, X-B, Accept, User-Agent, Authorization, Cache-Control, names with digits and -_), proxy-managed names (X-Forwarded-For/-Proto/-Port/-Host, Forwarded, X-Real-IP, X-Request-Id, Sozu-Id, X-Edge-Trace), Cookie lines of 1..4 crumbs incl. the sticky name (HTTP/2: joined, or one field per crumb) and - HTTP/1.1 client only - Connection (close, keep-alive, upgrade, named fields), Keep-Alive, TE, Upgrade, Proxy-Connection, Transfer-Encoding through chunked bodies; values typical for the name, empty, tokens, printable ASCII with inner spaces, inner HTAB, comma lists, quoted strings, 150..1800 bytes, obs-text (path A only); random case of names on path A, lower case on HTTP/2; bodies 0..20 kB (Content-Length or chunked; DATA with or without content-length) with 0..3 trailer fields (ordinary and proxy-managed names); in 4 % of requests one field the client's protocol forbids (HTTP/2: connection-specific field, TE other than trailers, upper-case name, CTL / DEL / NUL / CR LF in a value; HTTP/1.1: CTL / DEL in a value). Response plan: 200/201/204/304/404/500, 0..8 fields incl. duplicates, several Set-Cookie, the correlation name, HTAB / comma / long values, Connection / Keep-Alive from the HTTP/1.1 backend, bodies 0..20 kB, from the h2c backend toward the HTTP/2 client 0..2 trailer fields. Oracle: both sides are brought into one shape (:authority = Host, :method :path = request line, names case-insensitive, values byte-exact after OWS trimming, taken from each peer's own HPACK decoder / strict HTTP/1.1 reader) and judged by the h1h1 oracle: method, target, body equal; per end-to-end name the same value sequence; cookie crumbs in order minus the sticky crumb (joined or split); X-Forwarded-For / Forwarded = the client's elements + the real peer (proto = the listener's scheme), X-Real-IP per elide/send, X-Forwarded-Proto/-Port the client's or the listener's, exactly one X-Request-Id and one correlation header; trailer fields with protected names never arrive, ordinary ones arrive intact (except after an HTTP/2 content-length toward an HTTP/1.1 backend, where no trailer section exists); response status, body and per-name sequences equal plus exactly one correlation header with the id the backend saw. HTTP/2 side conditions on what the h2c backend / the HTTP/2 client decoded: the four request pseudo-header fields (:status for responses) once each, first, non-empty, equal to the client's method / target / Host; lower-case names; no Connection, Keep-Alive, Proxy-Connection, Transfer-Encoding, Upgrade, TE other than trailers; no pseudo-header in trailers; response trailers of the h2c backend arrive intact. Each request reaches exactly one backend once, nothing else reaches a backend (no smuggled request, no unreadable bytes). A request carrying a forbidden field (or obs-text on path A) may be refused (400, RST_STREAM, GOAWAY) and must then not reach any backend; if it is forwarded the forbidden field, an injected field or a control byte must not be in what the backend received; every other request must be forwarded. A failure is re-run twice on a fresh worker and reported only when it reproduces. Non-trivial: at least one request was forwarded and the scenario has a value with HTAB / comma / quote / 150+ bytes, a duplicate name, cookies or trailers; distinct by case hash.";
+const RULE: &str = "one scenario = 1..3 requests (HTTP/2: streams of one connection, one after the other or all opened before any response is read; HTTP/1.1: one connection per request, keep-alive only in the strict reproducer of a known finding) over one of three conversions through a live worker: (A) HTTP/1.1 client on a plain listener -> h2c backend, (B) HTTP/2 (TLS, ALPN h2) client -> HTTP/1.1 backend, (C) HTTP/2 client -> h2c backend; two listener pairs (defaults; elide+send X-Real-IP, sozu_id_header X-Edge-Trace, sticky_name LABSTICK). Request: GET/POST/PUT/DELETE/OPTIONS, origin-form targets with query strings, 0..10 fields + up to 2 duplicates from end-to-end names (X-A, X-B, Accept, User-Agent, Authorization, Cache-Control, names with digits and -_), proxy-managed names (X-Forwarded-For/-Proto/-Port/-Host, Forwarded, X-Real-IP, X-Request-Id, Sozu-Id, X-Edge-Trace), Cookie lines of 1..4 crumbs incl. the sticky name (HTTP/2: joined, or one field per crumb) and - HTTP/1.1 client only - Connection (close, keep-alive, upgrade, named fields), Keep-Alive, TE, Upgrade, Proxy-Connection, Transfer-Encoding through chunked bodies; values typical for the name, empty, tokens, printable ASCII with inner spaces, inner HTAB, comma lists, quoted strings, 150..1800 bytes, obs-text (path A only); random case of names on path A, lower case on HTTP/2; bodies 0..20 kB (Content-Length or chunked; DATA with or without content-length) with 0..3 trailer fields (ordinary and proxy-managed names); the HTTP/1.1 request and the HTTP/1.1 backend's response are optionally written in two pieces 10 ms apart; in 4 % of requests one field the client's protocol forbids (HTTP/2: connection-specific field, TE other than trailers, upper-case name, CTL / DEL / NUL / CR LF in a value; HTTP/1.1: CTL / DEL in a value). Response plan: 200/201/204/304/404/500, 0..8 fields incl. duplicates, several Set-Cookie, the correlation name, HTAB / comma / long values, Connection / Keep-Alive from the HTTP/1.1 backend, bodies 0..20 kB, from the h2c backend toward the HTTP/2 client 0..2 trailer fields. Oracle: both sides are brought into one shape (:authority = Host, :method :path = request line, names case-insensitive, values byte-exact after OWS trimming, taken from each peer's own HPACK decoder / strict HTTP/1.1 reader) and judged by the h1h1 oracle: method, target, body equal; per end-to-end name the same value sequence; cookie crumbs in order minus the sticky crumb (joined or split); X-Forwarded-For / Forwarded = the client's elements + the real peer (proto = the listener's scheme), X-Real-IP per elide/send, X-Forwarded-Proto/-Port the client's or the listener's, exactly one X-Request-Id and one correlation header; trailer fields with protected names never arrive, ordinary ones arrive intact (except after an HTTP/2 content-length toward an HTTP/1.1 backend, where no trailer section exists); response status, body and per-name sequences equal plus exactly one correlation header with the id the backend saw. HTTP/2 side conditions on what the h2c backend / the HTTP/2 client decoded: the four request pseudo-header fields (:status for responses) once each, first, non-empty, equal to the client's method / target / Host; lower-case names; no Connection, Keep-Alive, Proxy-Connection, Transfer-Encoding, Upgrade, TE other than trailers; no pseudo-header in trailers; response trailers of the h2c backend arrive intact. Each request reaches exactly one backend once, nothing else reaches a backend (no smuggled request, no unreadable bytes). A request carrying a forbidden field (or obs-text on path A) may be refused (400, RST_STREAM, GOAWAY) and must then not reach any backend; if it is forwarded the forbidden field, an injected field or a control byte must not be in what the backend received; every other request must be forwarded. A failure is re-run twice on a fresh worker and reported only when it reproduces. Non-trivial: at least one request was forwarded and the scenario has a value with HTAB / comma / quote / 150+ bytes, a duplicate name, cookies or trailers; distinct by case hash.";
 
 pub fn describe(ev: &mut Evidence) {
     ev.rule(SUB, RULE);
     ev.assume("h2paths: direct IPv4 loopback peers only (no PROXY protocol), non-sticky clusters, no per-frontend header edits, no HSTS: those settings are exercised over HTTP/1.1 by h1h1; flow-control windows are kept generous (C14's subject)");
     ev.assume("h2paths: an HTTP/2 client sends what RFC 9113 8.2 allows (lower-case names, no connection-specific field, no leading / trailing whitespace, ASCII values) except for the one deliberately forbidden field; TE: trailers may cross into HTTP/2 (RFC 9113 8.2.2); the :scheme sozu writes toward an h2c backend is only required to be http or https; obs-text is generated on path A only because the HTTP/1.1 mock backend of this lab records text");
-    ev.assume("h2paths: an HTTP/2 request that declares content-length and ends with trailers cannot deliver them to an HTTP/1.1 backend (Content-Length framing has no trailer section): their absence is admitted there, their protected names are still judged");
+    ev.assume("h2paths: an HTTP/2 request that declares content-length and ends with trailers cannot deliver them to an HTTP/1.1 backend (Content-Length framing has no trailer section): their absence is admitted there (strict reproducers only, see below), their protected names are still judged");
+    ev.assume("h2paths: seven known shapes are excluded by construction and counted in excluded_known (see KNOWN in props/c13_h2.rs), the committed strict reproducers regressions/C13/h2paths-known-*.json play them: a second request on an HTTP/1.1 keep-alive connection toward an h2c backend (502); HTTP/2 request trailers after a declared content-length toward an HTTP/1.1 backend (written after the body, read by the backend as a new request); h2c response trailers named x-real-ip / x-forwarded-for / forwarded / x-request-id (removed); an HTTP/2 request trailer named like the correlation header (forwarded); an h2c response content-length: 0 + trailers (never completes); HTTP/2 request trailers arriving while head + body fill the stream buffer (PROTOCOL_ERROR); HTTP/1.1 request trailers whose section is split across two reads toward an h2c backend (the fields read first are lost) - requests with trailers therefore keep head + body + trailers below 12 kB");
     for p in PATHS {
         ev.floor(SUB, p, 0.25);
     }
